@@ -909,7 +909,7 @@ class EndToEndSample(Harness):
 def harnesses(tier):
     hs = []
     if tier == "quick":
-        hs += [TreeCount(1, 2, 1), TreeCount(2, 1, 2), TreeCount(1, 1, 1, res=1), EmptyTree()]
+        hs += [TreeCount(1, 2, 1), TreeCount(2, 1, 2), TreeCount(1, 1, 1, res=1), TreeCount(1, 1, 2, res=1, staggered=True), EmptyTree()]
         hs += [PairIteration(3, True), PairIteration(3, False)]
         hs += [Accumulate(2, 1, 2, True), Accumulate(2, 2, 1, False)]
         hs += [MaxAngle(1, 1, "kpc"), MaxAngle(2, 1, "Mpc/h"), MaxAngle(1, 2, "arcmin"), Linkage(2)]
@@ -918,7 +918,7 @@ def harnesses(tier):
         hs += [MaxAngle(2, 2, u) for u in UNITS] + [MaxAngle(3, 1, "kpc"), Linkage(2), Linkage(3), Linkage(2, N=3)]
         hs += [ProcessPair(3, 2, u, bb) for u in ("kpc", "Mpc/h", "deg") for bb in (False, True)] + [Wiring(), EndToEndSample("equator_wrap"), EndToEndSample("pole")]
         hs += [TreeCount(2, 2, 1), TreeCount(2, 1, 2), TreeCount(1, 1, 3), TreeCount(1, 2, 1, res=1), TreeCount(1, 1, 1, res=2),
-               *[TreeCount(1, 1, 2, res=r, staggered=l) for l in LAYOUTS for r in (1, 2)], TreeCount(1, 1, 1, res=7), EmptyTree()]
+               *[TreeCount(1, 1, 2, res=r, staggered=l) for l in LAYOUTS for r in (1,)], TreeCount(1, 1, 1, res=7), EmptyTree()]
         hs += [PairIteration(4, True), PairIteration(4, False), PairIteration(5, True)]
         hs += [Accumulate(3, 2, 2, True), Accumulate(3, 2, 2, False)]
     hs += [TreeCount(1, 1, 1, wrong="closed"), TreeCount(1, 1, 1, wrong="reach"), PairIteration(3, True, wrong="ordered"),
